@@ -108,8 +108,17 @@ def e1(prog, ctx, L):
     for lhs, st in md:
         tb = cfg.block_of(st)
         ok1, c1 = cfg.all_paths_cut(tb, lambda lit, b, i: lit is not None and lit.kind == "truth" and lit.atom == "has_wsp" and not lit.pol, start=L.header)
-        ok2, c2 = cfg.all_paths_cut(tb, lambda lit, b, i: lit is not None and not lit.pol and
-                                    (_lit_calls(lit, "strchr") or (lit.kind == "truth" and lit.atom.startswith("*"))), start=L.header)
+        # ... about the character the cursor stands on when the key has been taken off (`data`), not about some character further right
+        def next_char_no_delim(lit, b, i):
+            if lit is None or lit.pol:
+                return False
+            if lit.kind == "truth" and lit.atom in ("*data", "data[0]"):
+                return True
+            if _lit_calls(lit, "strchr"):
+                a9 = [render(x) for x in lit.node.walk() if x.k == "CallExpr" and x.j.get("callee") == "strchr" for x in x.call_args()[1:2]]
+                return any(t9 in ("*data", "data[0]") for t9 in a9)
+            return False
+        ok2, c2 = cfg.all_paths_cut(tb, next_char_no_delim, start=L.header)
         if ok1 and ok2:
             ctx.ok("E1", "ECONF_MISSING_DELIMITER only for key + text without delimiter", st.where,
                    "every path carries: delimiter set has no blank; next character is not a delimiter")
